@@ -25,6 +25,8 @@ type GoTree struct {
 	// named-class predicates used by the tree: id -> membership (from Go's unicode tables)
 	Named map[int]func(rune) bool
 	names map[string]int
+	// id -> category name (the key of Named's predicates; lets a caller cache per-category tables)
+	CatNames map[int]string
 	// runes mentioned by the tree (literals and range endpoints)
 	Runes []rune
 	// slot -> group number (dense slots are mapped back to user group numbers for captures/refs)
@@ -68,6 +70,7 @@ func (g *GoTree) nameID(cat string) (int, bool) {
 	id := 100 + len(g.names)
 	g.names[cat] = id
 	g.Named[id] = p
+	g.CatNames[id] = cat
 	return id, true
 }
 
@@ -322,7 +325,7 @@ func (g *GoTree) node(n *syntax.RegexNode, rtl bool) (string, bool) {
 
 // FromGoTree converts the tree below the implicit root capture (group 0).
 func FromGoTree(t *syntax.RegexTree) *GoTree {
-	g := &GoTree{Named: map[int]func(rune) bool{}, names: map[string]int{}, RTL: t.Options&syntax.RightToLeft != 0}
+	g := &GoTree{Named: map[int]func(rune) bool{}, names: map[string]int{}, CatNames: map[int]string{}, RTL: t.Options&syntax.RightToLeft != 0}
 	root := t.Root
 	if root.T != syntax.NtCapture || root.M != 0 || len(root.Children) != 1 {
 		g.Unsupported = "root is not the implicit capture"
@@ -382,3 +385,7 @@ func EnvSexpNamed(text []rune, textstart int, patRunes []rune, o Opts, extra map
 	}
 	return strings.Replace(base, "(named ", "(named "+strings.Join(rows, " ")+" ", 1)
 }
+
+// CatPredicate is the membership predicate (from Go's unicode tables) of a category name as it appears
+// in a CharSet, or nil when the name is unknown.
+func CatPredicate(name string) func(rune) bool { return catPredicate(name) }
